@@ -183,7 +183,7 @@ def _fwd_jobs(prop, per_quick, per_thorough, extra=None):
 
 
 _S4 = ("durations T_i = sigma*rho_i with sigma in [0.1,10] s (log-uniform, 8 steps/octave) and max/min ratio <= 1000 (cubic) / 20 (quintic) / 4 (septic) "
-       "[ratio 1, the domain edge, or log-uniform in between; shapes: all equal, one short among long, one long among short, alternating, geometric ramp, log-uniform with both extremes present]; "
+       "[ratio 1, the domain edge, or log-uniform in between; shapes: all equal, nearly equal (differences of 2^-18..2^-45 relative), one short among long, one long among short, alternating, geometric ramp, log-uniform with both extremes present]; "
        "N: 1,2,3 over-represented, 4..12 common, 13..40 occasional; waypoints k/64*10^m (m in -3..4, optional common offset up to 1e6, occasional repeated waypoint); boundary derivatives zero / single "
        "non-zero / generic, commensurate with the motion; start time in {0, k/8, 1e3 k, 1e6 k, 1e9}")
 
@@ -242,7 +242,7 @@ PROPS["C18"] = {
     "jobs": _fwd_jobs("C18", 40000, 800000, _c18_extra),
     "floor_quick": 25000, "floor_thorough": 1000000,
     "rule": "order x dimension (quick 1,3,4,6; thorough 1..10) x N in 2..40 x ratio in [1,100] (pinned 4,10,20,30,50,100 or log-uniform) x placement {single short among long at every position, single long among short, "
-            "alternating, geometric ramp, log-uniform mix} x min T in [0.01,1] s x data incl. non-zero boundary derivatives, start time 0. non-trivial = ratio >= 10 and N >= 3",
+            "alternating, geometric ramp, log-uniform mix} x min T in [1e-3,1] s x data incl. non-zero boundary derivatives, start time 0. non-trivial = ratio >= 10 and N >= 3",
     "tolerances": {"scaled residual limit": "1e-3; scale = max(|lhs|,|rhs|, 1e-6 * largest magnitude of that derivative over all knots or |data|/Tmin^m)"},
     "assumptions": ["residuals are evaluated in long double from getCoefficients() with the input durations"],
 }
